@@ -943,7 +943,27 @@ func (s *seqCase) step() {
 		opname = "ITER"
 		m := map[int]int{}
 		dup := false
-		switch r.intn(3) {
+		variant := r.intn(3)
+		if s.bound != 0 && r.chance(40) {
+			variant = 3 + r.intn(2) // Hottest / Coldest: the eviction order views must hide expired entries too
+		}
+		switch variant {
+		case 3, 4:
+			// these views run maintenance themselves before they iterate: its automatic removals are
+			// written first, then the iteration's result
+			s.maint("Hottest/Coldest", func() {
+				seq := c.Hottest()
+				if variant == 4 {
+					seq = c.Coldest()
+				}
+				for e := range seq {
+					if _, ok := m[e.Key]; ok {
+						dup = true
+					}
+					m[e.Key] = e.Value
+				}
+			})
+			a0 = len(s.atomic)
 		case 0:
 			for kk, v := range c.All() {
 				if _, ok := m[kk]; ok {
